@@ -1062,7 +1062,7 @@ def _loc_cases(tier):
     if tier != 'quick':
         pairs += [('Mo', 's'), ('ih', 'auto')]
     for kinds in mixes:
-        for rows in (3,) if tier == 'quick' else (1, 2, 4):
+        for rows in (3,) if tier == 'quick' else (1, 4):
             cols = [col_array(k, j, rows) for j, k in enumerate(kinds)]
             lays = list(layouts_dtype_safe(cols))
             if tier == 'quick':
